@@ -79,7 +79,7 @@ type Spec struct {
 	ConnTimeout  time.Duration
 	StreamBuffer int
 
-	PerIPPerMin   int // 0 => effectively unlimited
+	PerIPPerMin   int  // 0 => effectively unlimited
 	PerIPOff      bool // write per_ip_requests_per_minute: 0 (the documented way to switch the per-IP limit off)
 	GlobalPerMin  int
 	Burst         int
